@@ -61,6 +61,8 @@ impl DiskReadScheduler {
         perf_counter: &QueryPerfCounter,
     ) -> Option<Arc<Column>> {
         let partition_handle = (handle.table().to_string(), handle.id());
+        #[cfg(feature = "verif")]
+        crate::verif::hooks::sync_point_at("get_or_load:begin", handle.table());
         if !self
             .load_scheduled
             .read()
@@ -127,6 +129,8 @@ impl DiskReadScheduler {
                         }
                     }
 
+                    #[cfg(feature = "verif")]
+                    crate::verif::hooks::sync_point_at("get_or_load:load", handle.table());
                     let _token = self.reader_semaphore.access();
                     match self.disk_store.load_column(
                         &handle.key().table,
